@@ -17,8 +17,8 @@ import subprocess
 
 from vlib import core, e2e
 
-MODS = ['S4V.Props.CliSpec']
-GEN = ['CliTables']
+MODS = ['S4V.Props.CliSpec', 'S4V.Props.CliNoStealSpec']
+GEN = ['CliTables', 'CliItems']
 LEVEL_NOTE = ("Proved over the model S4V.Model.Cli of process_dt / string_wdhms_to_duration / cli_process_args whose tables (76 pattern rows, the regex pieces and "
               "their anchors, the time-zone name map) are regenerated from s4.rs / datetime.rs on every run. ABSOLUTE FORMS, FOR ALL VALUES (C14_abs, "
               "S4V/Props/CliSpec.lean + S4V/Lemmas/CliAbs.lean): for every one of the 76 generated rows (C14_abs_rows_covered: all 76 satisfy the decidable per-row "
@@ -653,7 +653,22 @@ def check(ctx):
         else:
             c1, f1, n1 = h2_part(ctx, rows, tz)
             o2, c2 = e2e_part(ctx, rows, tz)
-            corr = c1 + [c2]
+            # first-match agreement (CliNoStealSpec): for every ordered pair (earlier row, later row) where the earlier row accepts values of the
+            # later one, such values x zone spellings x --tz-offset through the real process_dt (H2), the model, and an independent oracle
+            from vlib import cli_nosteal
+            nrecs = cli_nosteal.records()
+            if not ctx.thorough:
+                nrecs = nrecs[::4]
+            nreqs = sorted(set(r['line'] for r in nrecs))
+            c3, impl3 = compare(ctx, 'cli-dt-nosteal', nreqs)
+            rep = dict(zip(nreqs, impl3))
+            for r in nrecs:
+                exp = cli_nosteal.expected_reply(r)
+                if r['line'] in rep and rep[r['line']] != exp:
+                    f1.append({'signature': 'cli:first-matching-row-gives-another-instant', 'detail': f"value {r.get('value')!r} tz {r.get('tz')}: process_dt -> {rep[r['line']]}, documented {exp}",
+                               'case': {'value': r.get('value'), 'tz': r.get('tz')}})
+            n1 += len(nreqs)
+            corr = c1 + [c2, c3]
             o1 = {'evaluations': n1, 'distinct_nontrivial': n1, 'failures': f1, 'samples': [],
                   'rule': 'H2 evaluation mode: every grammar value must resolve to its documented denotation (computed here from the calendar), every value with an '
                           'invalid date/time/zone and every mutant outside the grammars must not resolve; distinct = request lines'}
